@@ -532,6 +532,13 @@ static plan::Plan genC09(uint64_t seed, const std::string& tier) {
   addCommonCfg(&p, r, seed, "c09", false);
   addArg(&p, "--pollinterval=" + std::to_string(1 + r.below(3)));
   addArg(&p, "--acquireretries=" + std::to_string(1 + r.below(3)));
+  // own master address: every priority class and sub address parity (its slave address must not be one of the simulated slaves)
+  if (r.chance(0.5)) {
+    static const uint8_t owns[] = {0xff, 0x00, 0x11, 0x71, 0x33, 0x07, 0xf1, 0x1f, 0x70, 0xf0};
+    char ab[32];
+    snprintf(ab, sizeof(ab), "--address=%02x", owns[r.below(10)]);
+    addArg(&p, ab);
+  }
   p.add("cfg minms=400 maxms=180000");
   std::vector<MsgDef> defs = randomDefs(r, 3 + static_cast<int>(r.below(6)), {}, true, true);
   for (auto& m : defs) emitMsg(&p, m);
@@ -801,8 +808,41 @@ static plan::Plan genC16(uint64_t seed, const std::string& tier) {
       p.add("user name=mqtt secret=- levels=" + (lv.empty() ? "-" : lv));
     }
   }
+  // wrong secrets: unrelated, the right one with something appended, the right one twice, a proper prefix of the right one
+  auto wrongSecret = [&r](const std::string& right) {
+    int k = static_cast<int>(r.below(5));
+    if (k == 0) return right + "x";
+    if (k == 1) return right + right;
+    if (k == 2 && right.size() > 1) return right.substr(0, right.size() - 1);
+    if (k == 3) return right + "0";
+    return std::string("wrong");
+  };
   std::vector<MsgDef> defs = randomDefs(r, 3 + static_cast<int>(r.below(5)), levels, false, false);
   for (auto& m : defs) emitMsg(&p, m);
+  // a second file whose header has a level column: the defaults row carries the level, messages with an empty level column
+  // inherit it, a message with its own level overrides it
+  if (r.chance(0.35)) {
+    p.add("csvzhdr l=" + hx("type,circuit,level,name,comment,qq,zz,pbsb,id,*name,part,type,divisor,unit,comment"));
+    std::string dl = levels[r.below(static_cast<uint32_t>(levels.size()))];
+    p.add("csvz l=" + hx("*r,cirz," + dl + ",,,,08,b50c,0c"));
+    int nz = 1 + static_cast<int>(r.below(3));
+    for (int i = 0; i < nz; i++) {
+      MsgDef m;
+      m.circuit = "cirz"; m.zz = 0x08; m.pb = 0xb5; m.sb = 0x0c;
+      m.id = {0x0c, static_cast<uint8_t>(0x70 + i), 0x00};
+      m.fields = {0};
+      bool own = r.chance(0.3);
+      m.name = std::string(own ? "own" : "inh") + std::to_string(i);
+      m.level = own ? levels[r.below(static_cast<uint32_t>(levels.size()))] : dl;
+      char b2[120];
+      snprintf(b2, sizeof(b2), "r,,%s,%s,,,,,%02x00,f0,,UCH,,,", own ? m.level.c_str() : "", m.name.c_str(), 0x70 + i);
+      p.add("csvz l=" + hx(b2));
+      plan::Plan tmp;
+      emitMsg(&tmp, m);
+      for (auto& l : tmp.lines) if (l.kind == "slave" || l.kind == "msg") p.add(l.str());
+      defs.push_back(m);
+    }
+  }
   // passively seen broadcast messages with a level: once their data is there, a cached read by name must still be refused
   std::vector<std::string> passiveNames;
   if (r.chance(0.4)) {
@@ -839,7 +879,7 @@ static plan::Plan genC16(uint64_t seed, const std::string& tier) {
         if (a >= 1 && !users.empty()) {
           const U& u = users[r.below(static_cast<uint32_t>(users.size()))];
           uname = u.name;
-          secret = a == 1 ? u.secret : (a == 2 ? "wrong" : "");
+          secret = a == 1 ? u.secret : (a == 2 ? wrongSecret(u.secret) : "");
           q = "user=" + uname + (a == 3 ? "" : "&secret=" + secret);
         }
         std::string required = r.chance(0.7) ? "required" : "";
@@ -858,7 +898,7 @@ static plan::Plan genC16(uint64_t seed, const std::string& tier) {
         const U& u = users[r.below(static_cast<uint32_t>(users.size()))];
         int a = static_cast<int>(r.below(4));
         std::string name = a == 3 ? "nobody" : u.name;
-        std::string secret = a == 0 || a == 1 ? u.secret : "wrong";
+        std::string secret = a == 0 || a == 1 ? u.secret : wrongSecret(u.secret);
         addCmd(&p, r, clientId, "auth " + name + " " + secret, "tag=auth user=" + name + " secret=" + secret);
         continue;
       }
@@ -999,22 +1039,59 @@ static plan::Plan genC16v(uint64_t seed, const std::string& tier) {
   return p;
 }
 
+// ---- c17d: polling through the whole daemon while clients keep asking for a poll priority ----
+static plan::Plan genC17d(uint64_t seed, const std::string& tier) {
+  (void)tier;
+  Rng r(seed);
+  plan::Plan p;
+  addCommonCfg(&p, r, seed, "c17d", false);
+  addArg(&p, "--pollinterval=1");
+  p.add("cfg minms=72000 maxms=200000 maxsteps=8000000");
+  int nm = 2 + static_cast<int>(r.below(3));
+  std::vector<MsgDef> defs;
+  for (int i = 0; i < nm; i++) {
+    MsgDef m;
+    m.circuit = "cir"; m.name = "p" + std::to_string(i); m.zz = 0x08; m.pb = 0xb5; m.sb = 0x09;
+    m.id = {0x0d, static_cast<uint8_t>(0x30 + i), 0x00};
+    m.fields = {static_cast<int>(r.below(3))};
+    m.poll = i == nm - 1 && r.chance(0.5) ? 0 : 1 + static_cast<int>(r.below(3));   // the last one may get its priority from a client only
+    emitMsg(&p, m);
+    defs.push_back(m);
+  }
+  // clients that ask again and again for the priority a message has already (or give the one without priority its first one)
+  int nclients = 1 + static_cast<int>(r.below(2));
+  for (int c = 0; c < nclients; c++) {
+    p.add("client id=" + std::to_string(c) + " at=" + std::to_string(1500 + r.below(2000)));
+    const MsgDef& m = defs[r.chance(0.6) ? defs.size() - 1 : r.below(static_cast<uint32_t>(defs.size()))];
+    int prio = m.poll ? m.poll : 1 + static_cast<int>(r.below(3));
+    int period = 400 + static_cast<int>(r.below(1400));
+    int n = 66000 / period;
+    if (n > 90) n = 90;
+    for (int k = 0; k < n; k++)
+      p.add("cmd client=" + std::to_string(c) + " text=" + hx("read -p " + std::to_string(prio) + " -m 300 -c cir " + m.name) + " gap=100 think=" + std::to_string(period) + " pipe=0 crlf=0 tag=pollask msg=" + m.name + " prio=" + std::to_string(prio));
+  }
+  for (int i = 0; i < 200; i++) p.add("react ack1=A resp1=G");
+  return p;
+}
+
 // ---- c18m: MQTT topics built from a seeded template arrive with /get, /set, /list ----
 static plan::Plan genC18m(uint64_t seed, const std::string& tier) {
   Rng r(seed);
   plan::Plan p;
   addCommonCfg(&p, r, seed, "c18m", false);
   static const char* leads[] = {"ebusd/", "e/b/", "", "x_", "eBUS/", "Home/Heating/"};
-  static const char* seps[] = {"/", "/x/", "-", "/s/", "/Val/"};
-  static const char* trails[] = {"", "/state", "/s/t", "-val", ".t", "/State"};
+  // (constants that start with a digit end the variable name in front of them; digits that no identifier of the run contains,
+  //  otherwise the topic would not be uniquely decodable)
+  static const char* seps[] = {"/", "/x/", "-", "/s/", "/Val/", "9x/", "7/"};
+  static const char* trails[] = {"", "/state", "/s/t", "-val", ".t", "/State", "9", "7th/s"};
   // a template with %name, optionally %circuit and %field, in a seeded order
   std::vector<std::string> fields = {"%name"};
   if (r.chance(0.8)) fields.push_back("%circuit");
   if (r.chance(0.5)) fields.push_back("%field");
   for (size_t i = fields.size(); i > 1; i--) std::swap(fields[i - 1], fields[r.below(static_cast<uint32_t>(i))]);
   std::string tmpl = leads[r.below(6)];
-  for (size_t i = 0; i < fields.size(); i++) { if (i) tmpl += seps[r.below(5)]; tmpl += fields[i]; }
-  tmpl += trails[r.below(6)];
+  for (size_t i = 0; i < fields.size(); i++) { if (i) tmpl += seps[r.below(7)]; tmpl += fields[i]; }
+  tmpl += trails[r.below(8)];
   addArg(&p, "--mqttport=1883");
   // without %circuit ebusd appends "/%circuit" unless the option ends with '#'
   addArg(&p, "--mqtttopic=" + tmpl + (tmpl.find("%circuit") == std::string::npos ? "#" : ""));
@@ -1185,7 +1262,19 @@ static plan::Plan genC20(uint64_t seed, const std::string& tier) {
     p.add("client id=" + std::to_string(clientId) + " at=" + std::to_string(300 + r.below(300)));
     for (int k = 0; k < n; k++) {
       std::string line;
-      int mode = static_cast<int>(r.below(13));
+      int mode = static_cast<int>(r.below(15));
+      if (mode >= 13) {
+        // well-formed commands with degenerate arguments: truncated hex telegrams on every hex path, the grab buffer decoded
+        // (it holds whatever was seen on the bus so far, incl. telegrams with 0..3 data bytes), prefixes of hex telegrams
+        static const char* structured[] = {"grab result all decode", "grab result decode", "grab result all", "grab result", "grab", "grab stop", "grab all",
+                                           "read -h 08b5", "read -h 08", "read -h 08b509", "read -h 08b50900", "read -h 08b50901", "read -h 08b509ff0d", "read -h", "read -f -h 08b5090",
+                                           "write -h 08", "write -h 08b5", "write -h 08b509", "write -h 08b5090201", "write -h fe", "hex 08b5", "hex 08", "hex", "hex 08b50903", "hex fe070400",
+                                           "read -def r,c,n,,,08,b509,0d00,,,UCH", "read -def -f r,c,n,,,08,b509,,,,UCH", "read -def", "decode UIN 01", "decode ULG 0102", "decode BTI 01", "decode HDA:3 01",
+                                           "inject 1008b5", "inject 10", "inject 10feb5160101/", "inject /00", "answer", "answer 10", "find -i", "find -i 0", "find -i zz", "find -F", "find -F name,zz",
+                                           "read -s", "read -s zz m0", "read -d", "read -d 1 m0", "read -p", "read -p x m0", "read -m", "read -m -1 m0", "read -i", "read -i 1;2;3;4;5;6;7;8;9 -c cir m0"};
+        addCmd(&p, r, clientId, structured[r.below(sizeof(structured) / sizeof(structured[0]))], "tag=none");
+        continue;
+      }
       if (mode >= 10) {
         // define (also replacing a loaded definition), then use what was defined
         bool cond = r.chance(0.25);
@@ -1257,6 +1346,17 @@ static plan::Plan genC20(uint64_t seed, const std::string& tier) {
     for (int q = 0; q < len; q++) { simbus::Step s; s.who = 'N'; s.b = static_cast<uint8_t>(r.chance(0.2) ? 0xaa : r.below(256)); st.push_back(s); }
     p.add("bus script idle=" + std::to_string(r.below(3)) + " note=garbage steps=" + simbus::stepsToText(st));
   }
+  // well-formed foreign telegrams with 0..3 data bytes (they end up in the grab buffer)
+  int nv = static_cast<int>(r.below(5));
+  for (int i = 0; i < nv; i++) {
+    int nn = static_cast<int>(r.below(4));
+    Bytes master = {static_cast<uint8_t>(r.chance(0.5) ? 0x10 : 0x03), 0xfe, static_cast<uint8_t>(r.chance(0.5) ? 0xb5 : 0x07), static_cast<uint8_t>(r.below(256)), static_cast<uint8_t>(nn)};
+    for (int q = 0; q < nn; q++) master.push_back(static_cast<uint8_t>(r.below(256)));
+    std::vector<simbus::Step> st;
+    for (uint8_t b : ref::renderMasterPart(master)) { simbus::Step s2; s2.who = 'M'; s2.b = b; st.push_back(s2); }
+    simbus::Step e; e.who = 'M'; e.b = ref::SYN; st.push_back(e);
+    p.add("bus script idle=" + std::to_string(r.below(3)) + " note=short steps=" + simbus::stepsToText(st));
+  }
   for (int i = 0; i < 20; i++) p.add("react ack1=A resp1=G");
   return p;
 }
@@ -1274,6 +1374,7 @@ struct Reg {
     hz::registerFamily(hz::Family{"c09f", "l3", genC09f, "reads with master side parameters and selection of one field by name and index"});
     hz::registerFamily(hz::Family{"c16", "l3", genC16, "access levels: interleaved TCP/HTTP sessions, ACL with overlapping level names"});
     hz::registerFamily(hz::Family{"c16v", "l3", genC16v, "access levels: conditional variants of one circuit/name with different levels; cached listings, HTTP /data, listen mode"});
+    hz::registerFamily(hz::Family{"c17d", "l3", genC17d, "polling through the whole daemon while clients keep asking for the poll priority a message already has"});
     hz::registerFamily(hz::Family{"c20s", "l3", genC20s, "enhanced adapter, foreign traffic, bus thread stalled around the arbitration of client requests"});
     hz::registerFamily(hz::Family{"c20", "l3", genC20, "garbage on TCP, HTTP and bus, then valid probes"});
   }
